@@ -263,6 +263,48 @@ def generate(repo):
                    'return segment_vtov, all_centers, windows, local_coords, local_masks, segment_ids, mask') else None
     g.fact('hexMaskIsUnionOfLocalMasks', 'prysm/segmented.py:_composite_hexagonal_aperture', aperture_structure)
 
+    def claim_step():
+        """the tail of the per-segment loop, per sample: what is stored as the segment's local mask and what the aperture mask
+        becomes, as Boolean functions of (aperture mask so far, polygon mask of this segment)"""
+        fn = get_def(sg, '_composite_hexagonal_aperture')
+        ring_loop = [s_ for s_ in fn.body if isinstance(s_, ast.For)][0]
+        seg_loop = [s_ for s_ in ring_loop.body if isinstance(s_, ast.For)][0]
+        body = list(seg_loop.body)
+        k0 = [i for i, s_ in enumerate(body) if isinstance(s_, ast.Assign) and ast.unparse(s_.targets[0]) == 'local_mask'
+              and 'regular_polygon' in ast.unparse(s_.value)][0]
+        st8 = {'local_mask': 'm', 'mask[local_window]': 'prev'}
+        stored = None
+
+        def b(e):
+            key = ast.unparse(e)
+            if key in st8:
+                return st8[key]
+            if isinstance(e, ast.UnaryOp) and isinstance(e.op, ast.Invert):
+                return f'(!{b(e.operand)})'
+            if isinstance(e, ast.BinOp) and isinstance(e.op, (ast.BitAnd, ast.BitOr, ast.BitXor)):
+                sym = {ast.BitAnd: '&&', ast.BitOr: '||', ast.BitXor: '!='}[type(e.op)]
+                return f'({b(e.left)} {sym} {b(e.right)})'
+            if isinstance(e, ast.Call) and ast.unparse(e.func) in ('np.logical_not',) and len(e.args) == 1:
+                return f'(!{b(e.args[0])})'
+            raise Untranslatable(f'mask expression {key}')
+        for st in body[k0 + 1:]:
+            txt = ast.unparse(st)
+            if isinstance(st, ast.AugAssign) and ast.unparse(st.target) in st8 and isinstance(st.op, (ast.BitAnd, ast.BitOr)):
+                sym = '&&' if isinstance(st.op, ast.BitAnd) else '||'
+                st8[ast.unparse(st.target)] = f'({st8[ast.unparse(st.target)]} {sym} {b(st.value)})'
+            elif isinstance(st, ast.Assign) and ast.unparse(st.targets[0]) in st8:
+                st8[ast.unparse(st.targets[0])] = b(st.value)
+            elif isinstance(st, ast.Expr) and txt.startswith('local_masks.append('):
+                stored = b(st.value.args[0])
+            elif 'local_mask' in txt.replace('local_masks', '') or 'mask[' in txt:
+                raise Untranslatable(f'claim step: {txt}')
+        if stored is None:
+            raise Untranslatable('local mask never stored')
+        return f"def claimStep (prev m : Bool) : Bool × Bool := ({stored}, {st8['mask[local_window]']})"
+    g.item('hex_claim', 'prysm/segmented.py:_composite_hexagonal_aperture (local_mask / mask update)',
+           lambda: get_def(sg, '_composite_hexagonal_aperture'), claim_step,
+           f'def claimStep (prev m : Bool) : Bool × Bool := {M}.claimStep prev m')
+
     def compose_structure():
         ok = True
         for cls in ('CompositeHexagonalAperture', 'CompositeKeystoneAperture'):
@@ -358,14 +400,51 @@ def generate(repo):
         ang = [s_ for s_ in inner_loop.body if isinstance(s_, ast.Assign) and ast.unparse(s_.targets[0]) == 'ang_mask'][0].value
         trp = VTr({'tt': ('t', 's'), 'lo': ('lo', 's'), 'hi': ('hi', 's')})
         angp = prop(trp, ang)
+        # the wrap-around branches that follow `ang_mask = ...`:  if c1: ang_mask |= X  elif c2: <assignments>; ang_mask = Y
+        body = list(inner_loop.body)
+        k_ang = [i for i, s_ in enumerate(body) if isinstance(s_, ast.Assign) and ast.unparse(s_.targets[0]) == 'ang_mask'][0]
+        k_msk = [i for i, s_ in enumerate(body) if isinstance(s_, ast.Assign) and ast.unparse(s_.targets[0]) == 'mask'][0]
+        between = body[k_ang + 1:k_msk]
+        trw = VTr({'tt': ('t', 's'), 'lo': ('lo', 's'), 'hi': ('hi', 's'), 'np.pi': ('pi', 's'), 'math.pi': ('pi', 's')})
+
+        def branch(stmts):
+            """ang_mask after a straight-line branch body, as a Prop in (lo, hi, t, pi)"""
+            names, cur = {}, None
+            for st in stmts:
+                if isinstance(st, ast.AugAssign) and ast.unparse(st.target) == 'ang_mask' and isinstance(st.op, (ast.BitOr, ast.BitAnd)):
+                    sym = '∨' if isinstance(st.op, ast.BitOr) else '∧'
+                    cur = f'({cur or angp} {sym} {prop(trw, subst(st.value, names))})'
+                elif isinstance(st, ast.Assign) and ast.unparse(st.targets[0]) == 'ang_mask':
+                    cur = prop(trw, subst(st.value, names))
+                elif isinstance(st, ast.Assign) and isinstance(st.targets[0], ast.Name):
+                    names[st.targets[0].id] = subst(st.value, names)
+                elif isinstance(st, ast.Assign) and ast.unparse(st.targets[0]) in ('lo, hi', '(lo, hi)'):
+                    pass      # rebinding AFTER the mask is formed: only feeds the edge coordinates stored for the OPD bases
+                else:
+                    raise Untranslatable(f'keystone wrap branch: {ast.unparse(st)}')
+                if cur is None and isinstance(st, ast.Assign) and ast.unparse(st.targets[0]) in ('lo, hi', '(lo, hi)'):
+                    raise Untranslatable('lo, hi rebound before the angular mask of the branch')
+            return cur or angp
+
+        def chain(stmts):
+            if not stmts:
+                return angp
+            if len(stmts) != 1 or not isinstance(stmts[0], ast.If):
+                raise Untranslatable('keystone wrap: expected one if/elif chain between ang_mask and mask')
+            node = stmts[0]
+            c = prop(trw, node.test)
+            return f'(({c} ∧ {branch(node.body)}) ∨ (¬ {c} ∧ {chain(node.orelse)}))'
+        wrap = chain(between)
         return (f'def keyInner {{K : Type}} [Add K] (outerPrev gap : K) : K := {inner}\n'
                 f'def keyOuter {{K : Type}} [Add K] (inner width : K) : K := {outer}\n'
-                f'def keySector {PVARS} (rin rout lo hi r t : K) : Prop := ({xor} ∧ {angp})')
+                f'def keySector {PVARS} (rin rout lo hi r t : K) : Prop := ({xor} ∧ {angp})\n'
+                f'def keyAng {PVARS} (pi lo hi t : K) : Prop := {wrap}')
     g.item('keystone', 'prysm/segmented.py:_composite_keystone_aperture',
            lambda: get_def(sg, '_composite_keystone_aperture'), keystone,
            (f'def keyInner {{K : Type}} [Add K] (outerPrev gap : K) : K := {M}.keyInner outerPrev gap\n'
             f'def keyOuter {{K : Type}} [Add K] (inner width : K) : K := {M}.keyOuter inner width\n'
-            f'def keySector {PVARS} (rin rout lo hi r t : K) : Prop := {M}.keySector rin rout lo hi r t'))
+            f'def keySector {PVARS} (rin rout lo hi r t : K) : Prop := {M}.keySector rin rout lo hi r t\n'
+            f'def keyAng {PVARS} (pi lo hi t : K) : Prop := {M}.keyAng pi lo hi t'))
 
     def rect_branches():
         fn = get_def(ge, 'rectangle')
